@@ -24,6 +24,8 @@ type pnftGen struct {
 	creator map[string]int
 	now     int64
 	warm    bool
+	tCreator map[string]int // who minted the token (may no longer own it)
+	tPrev    map[string]int // the previous owner of the token
 }
 
 var pnftDenomIds = []string{"a", "ab", "b", "a/b", "A"}
@@ -133,6 +135,7 @@ func (g *pnftGen) msg() (string, int) {
 		key := d + "\x01" + id
 		if _, exists := g.tOwner[key]; !exists && ok && a == o {
 			g.tOwner[key] = a
+			g.tCreator[key] = a
 		}
 		name := "tok"
 		if g.r.Chance(4) {
@@ -142,21 +145,45 @@ func (g *pnftGen) msg() (string, int) {
 	case k < 88:
 		d, id := g.someToken()
 		o, ok := g.tOwner[d+"\x01"+id]
-		a := g.actor(o, ok)
+		a := g.tokenActor(d, id, o, ok)
 		to := g.r.Intn(len(g.accts))
 		if ok && a == o {
+			g.tPrev[d+"\x01"+id] = o
 			g.tOwner[d+"\x01"+id] = to
 		}
 		return joinSp("pnft.Transfer", toks(d), toks(id), toks(g.addr(a)), toks(g.addr(to))), a
 	default:
 		d, id := g.someToken()
 		o, ok := g.tOwner[d+"\x01"+id]
-		a := g.actor(o, ok)
+		a := g.tokenActor(d, id, o, ok)
 		if ok && a == o {
 			delete(g.tOwner, d+"\x01"+id)
 		}
 		return joinSp("pnft.Burn", toks(d), toks(id), toks(g.addr(a))), a
 	}
+}
+
+// tokenActor: the current owner most of the time; otherwise preferably somebody with a plausible but wrong claim — the
+// account that minted the token, its previous owner, the owner of the denom — or a stranger
+func (g *pnftGen) tokenActor(d, id string, owner int, known bool) int {
+	if !known || g.warm || g.r.Chance(65) {
+		return g.actor(owner, known)
+	}
+	key := d + "\x01" + id
+	var cands []int
+	if c, ok := g.tCreator[key]; ok && c != owner {
+		cands = append(cands, c, c)
+	}
+	if p, ok := g.tPrev[key]; ok && p != owner {
+		cands = append(cands, p)
+	}
+	if do, ok := g.dOwner[d]; ok && do != owner {
+		cands = append(cands, do)
+	}
+	if len(cands) == 0 {
+		return g.actor(owner, known)
+	}
+	return cands[g.r.Intn(len(cands))]
 }
 
 func (g *pnftGen) someToken() (string, string) {
@@ -169,7 +196,7 @@ func (g *pnftGen) someToken() (string, string) {
 }
 
 func genPnftHistory(r *RNG, nBlocks int) []string {
-	g := &pnftGen{r: r, dOwner: map[string]int{}, tOwner: map[string]int{}, creator: map[string]int{}, now: 1700000100_000000000}
+	g := &pnftGen{r: r, dOwner: map[string]int{}, tOwner: map[string]int{}, creator: map[string]int{}, tCreator: map[string]int{}, tPrev: map[string]int{}, now: 1700000100_000000000}
 	for i := 0; i < 4; i++ {
 		g.accts = append(g.accts, mkAcct(i))
 	}
